@@ -1175,3 +1175,51 @@ package spec
 //@   ensures  [C05] never-zero-value-with-nil-error @@ result1 != nil ==> result0 == nil
 //@   ensures  [C05] value-on-success @@ result1 == nil ==> result0 != nil
 //@   ensures  [C05] error-if-undefined @@ !ptrDefined(refFragment(ref), root) ==> result1 != nil
+
+//@ func ExpandSchemaWithBasePath
+//@   strings  uninterpreted
+//@   property C04, C08, C10, C18
+//@   assumes  [C04] root-location-wellformed @@ opts != nil && opts.RelativeBase != "" ==> canonBase(normBase(opts.RelativeBase))
+//@   assumes  [C04] pseudo-root-wellformed @@ canonBase(normBase(".root"))
+//@   ensures  [C08] strict-propagates @@ schema != nil && (opts == nil || !old(opts.ContinueOnError)) && failures > old(failures) ==> result != nil
+//@   ensures  [C08] no-spurious-error @@ result != nil ==> failures > old(failures)
+//@   ensures  [C08] continue-silent @@ opts != nil && old(opts.ContinueOnError) ==> result == nil
+//@   ensures  [C08] failures-monotone @@ failures >= old(failures)
+//@   ensures  [C18] cache-dom-monotone @@ forall u string :: u != normBase(".root") && old(cacheDom[u]) ==> cacheDom[u]
+
+//@ func ExpandSchema
+//@   strings  uninterpreted
+//@   property C04, C08, C10
+//@   assumes  [C04] pseudo-root-wellformed @@ canonBase(normBase(".root"))
+//@   ensures  [C08] strict-propagates @@ schema != nil && failures > old(failures) ==> result != nil
+//@   ensures  [C08] no-spurious-error @@ result != nil ==> failures > old(failures)
+
+//@ func ExpandResponseWithRoot
+//@   strings  uninterpreted
+//@   property C04, C08, C10
+//@   assumes  [C04] pseudo-root-wellformed @@ canonBase(normBase(".root"))
+//@   ensures  [C08] strict-propagates @@ failures > old(failures) ==> result != nil
+//@   ensures  [C08] no-spurious-error @@ result != nil ==> failures > old(failures)
+
+//@ func ExpandParameterWithRoot
+//@   strings  uninterpreted
+//@   property C04, C08, C10
+//@   assumes  [C04] pseudo-root-wellformed @@ canonBase(normBase(".root"))
+//@   ensures  [C08] strict-propagates @@ failures > old(failures) ==> result != nil
+//@   ensures  [C08] no-spurious-error @@ result != nil ==> failures > old(failures)
+
+//@ func ExpandResponse
+//@   strings  uninterpreted
+//@   property C04, C08, C10
+//@   assumes  [C04] root-location-wellformed @@ basePath != "" ==> canonBase(normBase(basePath))
+//@   assumes  [C04] pseudo-root-wellformed @@ canonBase(normBase(".root"))
+//@   ensures  [C08] strict-propagates @@ failures > old(failures) ==> result != nil
+//@   ensures  [C08] no-spurious-error @@ result != nil ==> failures > old(failures)
+
+//@ func ExpandParameter
+//@   strings  uninterpreted
+//@   property C04, C08, C10
+//@   assumes  [C04] root-location-wellformed @@ basePath != "" ==> canonBase(normBase(basePath))
+//@   assumes  [C04] pseudo-root-wellformed @@ canonBase(normBase(".root"))
+//@   ensures  [C08] strict-propagates @@ failures > old(failures) ==> result != nil
+//@   ensures  [C08] no-spurious-error @@ result != nil ==> failures > old(failures)
